@@ -84,6 +84,21 @@ Theorem C01_no_runtime_step_touches_requested_effects : forall fuel cid w H r H'
   poll_next fuel cid w H = Some (r, H') -> exists requested, hout H' = hout H ++ requested.
 Proof. exact Perm.hout_poll_next. Qed.
 
+(* One layer of quiescence, proved of the runtime model for every heap that satisfies the order invariant (every state a
+   core can reach does: C07_order_invariant_under_a_core): when QueuingExecutor::run_task returns and the task still
+   hosts its command, the command has no output left, its own ready and spawn queues are empty (unless it has been
+   aborted, then its tasks are gone), and its AtomicWaker cell holds the executor task's waker or the executor task is
+   already queued again - so a later wake-up of any of its tasks reaches the executor's ready queue
+   (C05_wake_reaches_executor_at_any_depth).  For the layers below: C05_pending_command_is_quiet_and_host_subscribed_any. *)
+From Crux Require Rt.EvictHost Rt.CoreOrd.
+Theorem C01_executor_task_leaves_its_command_quiet_and_subscribed : forall FUEL' fuel q k k' cid,
+  EvictHost.OrdH (k_H k) -> xget q (k_slab k) = Some cid -> cid < length (cmds (k_H k)) ->
+  xrun_task (S FUEL') fuel q k = Some k' -> xget q (k_slab k') = Some cid ->
+  c_evs (gcmd cid (k_H k')) = [] /\ c_eff (gcmd cid (k_H k')) = [] /\
+  (was_aborted cid (k_H k') = false -> c_ready (gcmd cid (k_H k')) = [] /\ c_spawnq (gcmd cid (k_H k')) = []) /\
+  (c_atomic (gcmd cid (k_H k')) = Some (WExec q) \/ In q (xready (k_H k'))) /\ EvictHost.OrdH (k_H k').
+Proof. exact CoreOrd.xrun_task_leaves_command_quiet_and_subscribed. Qed.
+
 (* Below the core's channel: exactly-once hand-over on every HOP between a hosted command and its host, at any nesting
    level.  (1) the effect queue of every command is FIFO through every function of the runtime (it only loses at the
    front and gains at the back: nothing is duplicated into it or taken out of its middle); (2) Stream::poll_next of a
